@@ -79,7 +79,9 @@ Eligible(h)  == { p \in Peers : peerH[p] # Absent /\ peerH[p] >= h }
 Unassigned   == { h \in Hs : h >= height /\ req[h].p = None }
 
 AssignEnabled == \E h \in Unassigned : Eligible(h) # {}
-Ambiguous     == \E h \in Unassigned : Cardinality(Eligible(h)) > 1
+\* the pool never has a choice between peers: neither for a requester without peer, nor for the replacement of
+\* a requester's peer should it be removed (redo, disconnect, timeout)
+Unambiguous   == \A h \in Hs : h >= height => Cardinality(Eligible(h) \ {req[h].p}) <= 1
 
 SyncEnabled == /\ height < L
                /\ req[height].b # None /\ req[height + 1].b # None
@@ -109,7 +111,7 @@ Dropped(p) == [h \in Hs |-> IF req[h].p = p THEN Free ELSE req[h]]
 
 EnvOK == Live /\ nenv < MaxEnv /\ (Urgent => Quiet)
 \* an environment step must not leave the pool a choice between peers, nor race the switch against other steps
-Forced == Urgent => (~Ambiguous' /\ ~(CaughtUp' /\ SyncEnabled'))
+Forced == Urgent => (Unambiguous' /\ ~(CaughtUp' /\ SyncEnabled'))
 
 (* bcStatusResponseMessage from p: SetPeerHeight *)
 Report(p, H) ==
@@ -246,4 +248,6 @@ EndStateEqualsLive ==
 
 \* (urgent mode) the driver is never asked to race the switch ticker against the sync loop
 NoSwitchRace == (Urgent /\ Live /\ CaughtUp) => ~SyncEnabled
+\* (urgent mode) ... nor to guess which peer the pool picked
+NoAmbiguity  == Urgent => Unambiguous
 ===================================================================================
